@@ -2,8 +2,8 @@ SPECIFICATION Spec
 CONSTANTS
   OPS <- MC_OPS
   SHAPES <- Q_SHAPES
-  RANKS = {1, 3}
-  EPSEXP = {8, 4}
+  RANKS = {1, 2, 4}
+  EPSEXP = {10, 8, 4}
   GUESS = {"none", "fresh", "zero", "exact1", "exact2"}
   SEEDS = {1}
   BACKENDS = {"cpp"}
